@@ -364,7 +364,14 @@ def apalache(ctx, tla_text, modname, *, inv="Ok", timeout=900, name=None, extra_
         if not bad:
             raise Infra("Apalache violation with empty bad set\n" + out[-2000:])
     else:
-        raise Infra("Apalache failed (rc=%s) on %s:\n%s" % (p.returncode, modname, out[-3000:]))
+        errs = [l for l in out.splitlines() if " E@" in l or "rror" in l][:12]
+        keep = os.path.join(ROOT, "replays", "apalache-failed-%s.tla" % modname)
+        try:
+            os.makedirs(os.path.dirname(keep), exist_ok=True)
+            shutil.copy(os.path.join(d, modname + ".tla"), keep)
+        except OSError:
+            keep = "(not kept)"
+        raise Infra("Apalache failed (rc=%s) on %s (module kept at %s):\n%s" % (p.returncode, modname, keep, "\n".join(errs) or out[-1500:]))
     shutil.rmtree(d, True)
     log("[apalache] %s: %s, %.1fs" % (modname, "all hold" if not bad else "%d failing" % len(bad), sec))
     return bad
